@@ -14,6 +14,8 @@ import (
 	"math"
 	"math/rand"
 	"os"
+	"runtime"
+	"runtime/debug"
 	"sort"
 	"strconv"
 	"strings"
@@ -443,6 +445,21 @@ func (s *stSess) runStream(mv *mvSess, kv map[string]string, backupTo *bytes.Buf
 			}
 		}
 	}
+	tRun := time.Now()
+	if os.Getenv("VERIF_TIMING") == "2" {
+		wd := time.AfterFunc(400*time.Millisecond, func() {
+			buf := make([]byte, 1<<20)
+			n := runtime.Stack(buf, true)
+			fmt.Fprintf(os.Stderr, "WATCHDOG\n%s\nENDWATCHDOG\n", buf[:n])
+		})
+		defer wd.Stop()
+	}
+	defer func() {
+		if os.Getenv("VERIF_TIMING") != "" {
+			stTimingAcc[fmt.Sprintf("run:numgo=%d,step=%v", numGo, stepped)] += time.Since(tRun)
+			fmt.Fprintln(os.Stderr, "RUN", numGo, stepped, time.Since(tRun))
+		}
+	}()
 	switch {
 	case backupTo != nil:
 		// Stream.Backup installs its own KeyToList and Send and calls Orchestrate
@@ -1252,6 +1269,12 @@ func (s *stSess) doSwFeed(w []string, emit func(string, string), fail func(strin
 func execStreamEng(intents []string, st *Stats) (final, outs, oracle []string) {
 	s := &stSess{st: st, slots: map[int]*stSlot{}, backups: map[int]*stBackup{}}
 	defer s.closeAll()
+	// every producer of a Stream allocates 32 MB buffers (2*batchSize); with the default GC
+	// pacing each of them triggers a collection and the allocating goroutine assists it
+	if os.Getenv("VERIF_STREAM_GC") == "" {
+		defer debug.SetGCPercent(debug.SetGCPercent(-1))
+		defer debug.SetMemoryLimit(debug.SetMemoryLimit(700 << 20))
+	}
 	emit := func(op, out string) {
 		final = append(final, op)
 		outs = append(outs, out)
@@ -1277,6 +1300,12 @@ func execStreamEng(intents []string, st *Stats) (final, outs, oracle []string) {
 			continue
 		}
 		st.Inc("op:" + w[0])
+		if os.Getenv("VERIF_TIMING") != "" {
+			t0 := time.Now()
+			name := w[0]
+			defer func() { _ = t0 }()
+			stTimingStart(name)
+		}
 		switch w[0] {
 		case "reset":
 			s.closeAll()
@@ -1476,7 +1505,7 @@ func (g *stGen) newKeys() {
 }
 
 func (g *stGen) streamParams() string {
-	numGo := pick(g.rng, 1, 2, 8, 16)
+	numGo := pick(g.rng, 1, 1, 1, 2, 2, 2, 2, 8, 8, 16)
 	o := fmt.Sprintf("numgo=%d", numGo)
 	if g.rng.Intn(3) == 0 {
 		k := g.keys[g.rng.Intn(len(g.keys))]
@@ -1583,7 +1612,7 @@ func (g *stGen) genStream() {
 }
 
 func (g *stGen) backupParams() string {
-	o := fmt.Sprintf("numgo=%d", pick(g.rng, 1, 2, 8, 16))
+	o := fmt.Sprintf("numgo=%d", pick(g.rng, 1, 1, 1, 2, 2, 2, 2, 8, 8, 16))
 	if g.managed {
 		o += fmt.Sprintf(" at=%d", uint64(math.MaxUint64))
 	}
@@ -1720,7 +1749,7 @@ func (g *stGen) genSwriter() {
 		// end to end: Stream of a source DB into the StreamWriter of a fresh one
 		g.add("reset %s", p)
 		g.build(2 + g.rng.Intn(5))
-		o := fmt.Sprintf("numgo=%d", pick(g.rng, 1, 2, 8, 16))
+		o := fmt.Sprintf("numgo=%d", pick(g.rng, 1, 1, 1, 2, 2, 2, 2, 8, 8, 16))
 		if g.managed {
 			o += fmt.Sprintf(" at=%d", uint64(math.MaxUint64))
 		}
@@ -1765,5 +1794,20 @@ func (g *stGen) genSwriter() {
 				g.add("flush")
 			}
 		}
+	}
+}
+
+var stTimingLast time.Time
+var stTimingName string
+var stTimingAcc = map[string]time.Duration{}
+
+func stTimingStart(name string) {
+	now := time.Now()
+	if stTimingName != "" {
+		stTimingAcc[stTimingName] += now.Sub(stTimingLast)
+	}
+	stTimingName, stTimingLast = name, now
+	if name == "reset" {
+		fmt.Fprintln(os.Stderr, "TIMING", stTimingAcc)
 	}
 }
